@@ -140,7 +140,7 @@ fn case_drain(rt: &tokio::runtime::Runtime, c: &Conf, req: &Req, stats: &mut Sta
         for i in 0..(DRAIN_LIMIT as u32 + 8) {
             // same interface, same options, another client identifier
             let mut q = req.clone();
-            q.opts.retain(|(c, _)| *c != 61 && *c != 50);
+            q.opts.retain(|(c, _)| *c != 61); // a requested address (50), if any, is asked for by every client
             q.opts.push((61, vec![0xfe, (i >> 8) as u8, i as u8]));
             let request = mk_request(&q);
             let mut serverids = std::collections::HashSet::new();
@@ -227,6 +227,51 @@ fn add_duplicate_key(r: &mut Rng, p: &mut CPolicy) -> bool {
     false
 }
 
+/// condition-less parent -> [condition-less group whose descendants cannot match the client,
+/// then the host's single-address reservation]; `deep` puts the whole thing one level down
+/// (reservation at depth 3).  Returns the policy, the reserved host's MAC and its address.
+fn gen_decoy_reservation_layout(r: &mut Rng, net: (u32, u8), deep: bool) -> (CPolicy, Vec<u8>, u32) {
+    let mac = r.pick(&MACS)[..].to_vec();
+    let a = host_in(r, net);
+    let mut group = CPolicy::default();
+    let k = r.below(3); // 0 = an empty condition-less group
+    for _ in 0..k {
+        let mut leaf = CPolicy { ch: Some(DECOY_MAC.to_vec()), ..Default::default() };
+        leaf.ad.push(AItem::Addr(addr_in(r, net)));
+        group.kids.push(leaf);
+    }
+    let mut resv = CPolicy { ch: Some(mac.clone()), ..Default::default() };
+    resv.ad.push(AItem::Addr(a));
+    let mut parent = CPolicy::default();
+    if r.chance(1, 2) {
+        // the parent's own pool (used by nobody unless a child matches)
+        let s = addr_in(r, net);
+        parent.ad.push(AItem::Range(s, s.saturating_add(*r.pick(&[0u32, 5, 40]))));
+    }
+    parent.kids.push(group);
+    if r.chance(1, 3) {
+        // a second decoy: a conditional policy that fails
+        let mut other = CPolicy { ch: Some(DECOY_MAC.to_vec()), ..Default::default() };
+        other.ad.push(AItem::Addr(addr_in(r, net)));
+        parent.kids.push(other);
+    }
+    parent.kids.push(resv);
+    if deep {
+        let mut top = CPolicy::default();
+        if r.chance(1, 2) {
+            top.sn = Some(net);
+        }
+        // a condition-less decoy in front at this level too
+        if r.chance(1, 2) {
+            top.kids.push(CPolicy::default());
+        }
+        top.kids.push(parent);
+        (top, mac, a)
+    } else {
+        (parent, mac, a)
+    }
+}
+
 fn strip_clientid(p: &mut CPolicy) {
     p.mo.retain(|(c, _)| *c != 61);
     for k in p.kids.iter_mut() {
@@ -282,11 +327,12 @@ pub fn run(args: &Args, out: &mut dyn Write) -> Stats {
             1..=4 => (12, 19),
             _ => (20, 30),
         };
-        let (mut c, w) = gen_conf(&mut r, &g, lens);
+        let (mut c, mut w) = gen_conf(&mut r, &g, lens);
         if lens.1 <= 11 {
             c.addresses.truncate(1);
         }
         let (mut req, net) = gen_req(&mut r, &w, &c);
+        w.sip = Some(req.serverip);
         req.opts.retain(|(c, _)| *c != 53 && *c != 50 && *c != 54);
         req.opts.insert(0, (53, vec![1]));
         let k = r.range(0, 2);
@@ -295,6 +341,15 @@ pub fn run(args: &Args, out: &mut dyn Write) -> Stats {
                 (Some(n), 0) => c.policies.push(gen_reservation_layout(&mut r, n)),
                 _ => c.policies.push(gen_policy(&mut r, &w, &g, 1, net)),
             }
+        }
+        // the reservation behind a condition-less group (first in the list, so nothing shadows it)
+        let mut reserved: Option<(Vec<u8>, u32)> = None;
+        if let (Some(n), true) = (net, r.chance(1, 5)) {
+            let deep = r.chance(1, 2);
+            let (p, mac, a) = gen_decoy_reservation_layout(&mut r, n, deep);
+            c.policies.insert(0, p);
+            reserved = Some((mac, a));
+            stats.bump(if deep { "gen.decoy_reservation.depth3" } else { "gen.decoy_reservation.depth2" });
         }
         for p in c.policies.iter_mut() {
             strip_clientid(p);
@@ -313,9 +368,21 @@ pub fn run(args: &Args, out: &mut dyn Write) -> Stats {
             }
         }
         for j in 0..2 {
+            if let (0, Some((mac, _))) = (j, &reserved) {
+                // the reserved host itself
+                req.chaddr = mac.clone();
+            }
             if j > 0 {
                 // another client on the same interface (reservations are per hardware address)
                 req.chaddr = r.pick(&MACS)[..].to_vec();
+                if let Some((mac, a)) = &reserved {
+                    // somebody else, asking for the reserved address
+                    while req.chaddr == *mac {
+                        req.chaddr = r.pick(&MACS)[..].to_vec();
+                    }
+                    req.opts.retain(|(c, _)| *c != 50);
+                    req.opts.push((50, a.to_be_bytes().to_vec()));
+                }
                 if r.chance(1, 2) {
                     req.opts.retain(|(c, _)| *c != 12);
                     req.opts.push((12, b"alpha".to_vec()));
@@ -328,7 +395,7 @@ pub fn run(args: &Args, out: &mut dyn Write) -> Stats {
                 // every request of a drain expands all `addresses` prefixes again: with a /8../13 a
                 // drain would outlast the leases it is counting
                 let cheap = c.addresses.iter().all(|a| !matches!(a, Pfx::P4(_, l) if *l < 14));
-                if n <= DRAIN_LIMIT && cheap && r.chance(1, 2) {
+                if n <= DRAIN_LIMIT && cheap && (reserved.is_some() || r.chance(1, 2)) {
                     if let Some(t) = case_drain(&rt, &c, &req, &mut stats) {
                         writeln!(out, "{}", t.0).unwrap();
                         i += 1;
